@@ -450,6 +450,14 @@ func genPersistCase(r *vlib.R, emit func(string)) int {
 	emit(fmt.Sprintf("bl new 0.0.0.0 :: %s _ %s", encList(white), file))
 	n := 1
 	n += emitViaAPI(r, u, emit)
+	if r.Chance(1, 5) {
+		if r.Bool() {
+			emit("bl set " + enc("seed.linked.example"))
+			n++
+		}
+		emit("bl linkmain")
+		n++
+	}
 	var pending []uint64
 	steps := 4 + r.Intn(10)
 	for i := 0; i < steps; i++ {
@@ -620,6 +628,9 @@ func genCrashCase(r *vlib.R, emit func(string)) int {
 	if sysc == "openat" {
 		// the Go runtime opens about a dozen files before the first temp file
 		when = 11 + r.Intn(k+3)
+	}
+	if r.Chance(1, 4) {
+		sysc = "L" + sysc // <dir>/local is a symbolic link
 	}
 	emit(fmt.Sprintf("bl crash %s %d %s", sysc, when, strings.Join(items, ",")))
 	return 1
@@ -1013,6 +1024,21 @@ func gen(r *vlib.R, n int, tier string, emit func(string)) {
 	emit("bl iserve " + enc("deep.sub.example.com.") + " 28")
 	emit("bl iserve " + enc("example.org.") + " 1")
 	emit("bl iserve " + enc("late.cdn.example.org.") + " 16")
+	// <dir>/local is a symbolic link; a save fails half way, the next one succeeds
+	emit("bl new 0.0.0.0 :: _ _ _")
+	emit("bl set " + enc("managed.example.com"))
+	emit("bl linkmain")
+	emit("bl mset " + enc("second.example.com"))
+	emit("bl persist 2 fsize")
+	emit("bl file")
+	emit("bl mremove " + enc("managed.example.com"))
+	emit("bl persist 3 destdir")
+	emit("bl mset " + enc("third.example.com"))
+	emit("bl persist 4 ok")
+	emit("bl file")
+	emit("bl restart " + mainText() + " _")
+	emit("bl crash Lwrite 3 s" + enc("a.linked.example") + ",s" + enc("b.linked.example"))
+	emit("bl crash Lwrite 1 s" + enc("a.linked.example") + ",s" + enc("b.linked.example"))
 	// the last plain entry goes while a wildcard stays (and the other way round)
 	emit("bl new 0.0.0.0 :: _ _ _")
 	emit("bl set " + enc("*.tracker.net"))
